@@ -51,7 +51,9 @@ def recovery_rules(ctx, rep, prefix: str, classes: list[str]) -> None:
         # ---- .2 guards
         body = [s for s in outer.node.body if not (isinstance(s, ast.Expr) and isinstance(s.value, ast.Constant))]
         first = body[0] if body else None
-        g_ok = isinstance(first, ast.If) and "len(" in ast.unparse(first.test) and "!= 1" in ast.unparse(first.test) and any(isinstance(s, ast.Raise) and "ValueError" in ast.unparse(s) for s in first.body)
+        shard = outer.params[0]
+        flat_tests = {f"len({shard}.size()) != 1", f"{shard}.dim() != 1", f"{shard}.ndim != 1", f"len({shard}.shape) != 1", f"not {shard}.dim() == 1", f"not len({shard}.size()) == 1"}
+        g_ok = isinstance(first, ast.If) and " ".join(ast.unparse(first.test).split()) in flat_tests and any(isinstance(s, ast.Raise) and "ValueError" in ast.unparse(s) for s in first.body)
         rep.ob(f"{prefix}.2", f"guard:{ci.name}:non-flat-shard-raises-first", g_ok, outer.loc(first) if first is not None else outer.loc(), "a shard that is not 1-D is rejected with ValueError before anything else", sample=True)
         outer_rets = [n for n in A.walk_no_nested(outer.node) if isinstance(n, ast.Return)]
         only_helper = all(isinstance(r.value, ast.Call) and isinstance(r.value.func, ast.Name) and r.value.func.id == inner.name for r in outer_rets) and len(outer_rets) == 1
